@@ -13,13 +13,16 @@ class Hooks:
     def hold(self, site):
         open(os.path.join(self.dir, "hold." + site), "w").close()
 
-    def wait_at(self, site, timeout=5.0):
-        """wait until some request is parked at the site; returns True when one is"""
+    def wait_at(self, site, timeout=5.0, thread=None):
+        """wait until some request is parked at the site; returns True when one is (False at once when the requesting
+        thread has finished without passing the site)"""
         t0 = time.time()
         while time.time() - t0 < timeout:
             if glob.glob(os.path.join(self.dir, "at.%s.*" % site)):
                 return True
-            time.sleep(0.002)
+            if thread is not None and not thread.is_alive():
+                return bool(glob.glob(os.path.join(self.dir, "at.%s.*" % site)))
+            time.sleep(0.001)
         return False
 
     def release(self, site):
@@ -50,7 +53,13 @@ def held(hooks, site, first, second, timeout=5.0):
     hooks.hold(site)
     t = threading.Thread(target=lambda: res.__setitem__("a", first()))
     t.start()
-    parked = hooks.wait_at(site, timeout)
+    parked = hooks.wait_at(site, timeout, t)
+    if parked:
+        # only the first passage is held: later passages of the same site (by the second request) go through
+        for f in glob.glob(os.path.join(hooks.dir, "at.%s.*" % site)):
+            n = int(f.rsplit(".", 1)[1])
+            for m in range(n + 1, n + 40):
+                open(os.path.join(hooks.dir, "go.%s.%d" % (site, m)), "w").close()
     try:
         res["b"] = second() if parked else None
     finally:
